@@ -28,9 +28,10 @@ Rules (composable; `rules` is any subset):
   synonym    mnemonics with an identical opcode pattern (bcc/bhis, bcs/blo, ret/return, ...)
   wordform   '.word a, b' <-> implicit word list 'a, b'
   legacy     '(rN)' <-> '@rN' as a whole operand
-Deliberate exclusions (documented behaviour of the assembler, not spelling): operands of branch-type
-instructions (pattern letters o/O: a bare number there is a local-label reference and '(' switches that
-off), a number followed by ':' (label), digit strings containing 8/9 without a dot (error by design),
+Deliberate exclusions (documented behaviour of the assembler, not spelling): in operands of branch-type
+instructions (pattern letters o/O) a bare number at the top level is a local-label reference and any '('
+switches that reading off -- so there only numbers *inside* brackets are re-spelled, and the bracket style
+only changes in operands without a top-level number, a number followed by ':' (label), digit strings containing 8/9 without a dot (error by design),
 grouping around registers ('(r0)' is an addressing mode), '<<' / '>>' adjacency, a caret at the start of
 an implicit word list (it would continue the previous statement as an infix xor).
 """
@@ -56,7 +57,9 @@ META = {
     ".ascii": "str", ".asciz": "str", ".rad50": "str", ".include": "str", ".ident": "str",
     "insert_file": "str", "make_bin": "str", "make_bk0010_rom": "str", "make_raw": "str",
     "make_wav": "str", "make_turbo_wav": "str",
-    ".title": "raw", ".sbttl": "raw", ".error": "raw",
+    # free text to the end of the line.  "rawc": the text is ignored by the directive, so a ';' comment (which the
+    # parser takes as part of the text) may be added / removed / replaced; ".error" reports its text: left alone
+    ".title": "rawc", ".sbttl": "rawc", ".error": "raw",
     ".extern": "names",
 }
 
@@ -390,8 +393,13 @@ class Line:
                 if low in META:
                     self.kind = "meta"
                     self.mode = META[low]
-                    if self.mode == "raw":
-                        toks.append(Tok("rawtext", s[j:], frozen=True))
+                    if self.mode in ("raw", "rawc"):
+                        rest_ = s[j:]
+                        lead = rest_[:len(rest_) - len(rest_.lstrip(" \t"))]
+                        if lead:
+                            toks.append(Tok("ws", lead))
+                        if rest_[len(lead):]:
+                            toks.append(Tok("rawtext", rest_[len(lead):], frozen=True))
                         return
                     if self.mode == "str":
                         if not scan_strings(s, j, toks):
@@ -638,11 +646,36 @@ def rule_legacy(line, r, T, st):
 CARET_DELIMS = ["/", "|", "?", "[", "]", "\\"]
 
 
+def _branch_scope(line):
+    """offset-type instructions (br, sob, ...): a bare number at the top level of the operand is (or may become) a
+    local-label reference, and any '(' in the operand switches that reading off.  Returns (inside, clean):
+    inside = token indices lying inside some bracket (plain values: radix may be rewritten there);
+    clean  = token indices of operands that hold no number-shaped token outside brackets (only there may the
+             bracket style change, because only there '(' versus '<' cannot alter what a top-level number means)"""
+    inside, clean = set(), set()
+    for ks in _operand_bounds(line):
+        depth, outside_num = 0, False
+        for k in ks:
+            t = line.toks[k]
+            if t.kind == "op" and t.text in ")>":
+                depth -= 1
+            if depth > 0:
+                inside.add(k)
+            elif t.kind in ("num", "locnum", "cnum"):
+                outside_num = True
+            if t.kind == "op" and t.text in "(<":
+                depth += 1
+        if not outside_num:
+            clean.update(ks)
+    return inside, clean
+
+
 def rule_group(line, r, T, st):
     if line.kind not in ("insn", "meta", "assign", "wordlist") or line.mode != "expr":
         return
+    branch_clean = None
     if line.kind == "insn" and T.is_branch(line.mnem_l):
-        return
+        branch_clean = _branch_scope(line)[1]
     sg = line.sig(line.oper)
     stack, pairs = [], []
     for k in sg:
@@ -655,6 +688,8 @@ def rule_group(line, r, T, st):
     for (a, b) in pairs:
         inner = [k for k in sg if a < k < b]
         if not inner:
+            continue
+        if branch_clean is not None and a not in branch_clean:
             continue
         if any((line.toks[k].kind == "ident" and line.toks[k].text.lower() in REGS) or (line.toks[k].kind == "op" and line.toks[k].text == "%" and line.toks[k].value != "mod") for k in inner):
             continue          # never around a register
@@ -697,13 +732,16 @@ def rule_group(line, r, T, st):
 def rule_radix(line, r, T, st):
     if line.kind not in ("insn", "meta", "assign", "wordlist") or line.mode != "expr":
         return
+    branch_inside = None
     if line.kind == "insn" and T.is_branch(line.mnem_l):
-        return
+        branch_inside = _branch_scope(line)[0]
     sg = line.sig(line.oper)
     first = sg[0] if sg else None
     for k in sg:
         t = line.toks[k]
         if t.kind not in ("num", "cnum") or t.frozen:
+            continue
+        if branch_inside is not None and k not in branch_inside:
             continue
         if r.random() > 0.6:
             continue
@@ -778,7 +816,7 @@ def rule_ws(line, r, T, st):
     if line.kind is None:
         return
     toks = line.toks
-    raw = line.mode == "raw"
+    raw = line.mode in ("raw", "rawc")
     # 1. existing whitespace: re-draw (tabs vs spaces, length), remove where allowed
     for k, t in enumerate(toks):
         if t.kind != "ws":
@@ -852,7 +890,7 @@ def rule_ws(line, r, T, st):
             st["ws"] += 1
     line.toks = out
     # trailing blanks
-    if line.toks and line.toks[-1].kind not in ("ws", "rawtext") and r.random() < 0.2:
+    if line.toks and line.toks[-1].kind not in ("ws", "rawtext") and not raw and r.random() < 0.2:
         line.toks.append(Tok("ws", _rand_ws(r, 1)))
         st["ws"] += 1
 
@@ -861,6 +899,28 @@ def rule_comment(line, r, T, st):
     if line.kind is None or line.mode == "raw":
         return
     toks = line.toks
+    if line.mode == "rawc":
+        # '.title' / '.sbttl': everything up to the end of the line, a ';' included, is the text, and the directive
+        # ignores what the text says -- but not WHETHER there is text ('.title' alone is an error, '.title ;c' is not):
+        # a rewrite never turns an empty text into a non-empty one or back
+        if toks and toks[-1].kind == "rawtext":
+            t = toks[-1]
+            k = t.text.find(";")
+            c = r.random()
+            if k >= 0 and not t.text[:k].strip(" \t"):
+                if c < 0.6:
+                    t.text = r.choice(COMMENT_POOL)              # the text is only a comment: replace it, keep it non-empty
+                    st["comment"] += 1
+            elif k >= 0 and c < 0.35:
+                t.text = t.text[:k].rstrip(" \t")
+                st["comment"] += 1
+            elif k >= 0 and c < 0.65:
+                t.text = t.text[:k] + r.choice(COMMENT_POOL)
+                st["comment"] += 1
+            elif k < 0 and c < 0.5:
+                t.text = t.text + r.choice(["", " ", "\t"]) + r.choice(COMMENT_POOL)
+                st["comment"] += 1
+        return
     if toks and toks[-1].kind == "comment":
         c = r.random()
         if c < 0.4:
@@ -886,7 +946,7 @@ def _ends_open(line):
     t = line.toks[sg[-1]]
     if t.kind == "op" and t.text not in (")", ">", "{", "}", ":", "::"):
         return True
-    if t.kind == "mnem" and line.mode != "none" and not (line.kind == "insn" and False):
+    if t.kind == "mnem" and line.mode not in ("none", "raw", "rawc"):
         return True
     return False
 
